@@ -50,8 +50,8 @@ type MetadataRequestV8 struct {
 // Metadata Request (Version: 10)
 
 type MetadataRequestTopicV10 struct {
-	Name string
-	UUID UUID
+	Name string `json:"name"`
+	UUID UUID   `json:"uuid"`
 }
 
 type MetadataRequestV10 struct {
